@@ -1,20 +1,26 @@
 --------------------------- MODULE MC_KMeshGridTab ---------------------------
-(* function table of Grid.get_K_list: one TLC state per (group, grid size, use_symmetry) carrying the K list that the
-   specification demands (IrreducibleList; MC_KMeshGrid proves it equal to the loop-level transcription).  Every state
-   is replayed on the real Grid. *)
+(* function table of Grid.get_K_list: for every (group, grid size, use_symmetry) the K list that the specification
+   demands (IrreducibleList; MC_KMeshGrid proves it equal to the loop-level transcription).  Init enumerates the
+   inputs, the action Call evaluates them; every "done" state is replayed on the real Grid. *)
 EXTENDS KMesh
 CONSTANTS NMAX, Names, SymSet
-VARIABLES grp, n, sym, ok, out
-vars == <<grp, n, sym, ok, out>>
+VARIABLES grp, n, sym, pc, ok, out
+vars == <<grp, n, sym, pc, ok, out>>
+AllNames == GroupNames
 Init == /\ grp \in Names /\ n \in (1..NMAX) \X (1..NMAX) \X (1..NMAX) /\ sym \in SymSet
-        /\ ok = Compatible(n, GroupOf(grp))
-        /\ out = IF ok THEN IrreducibleList(n, GroupOf(grp), sym) ELSE <<>>
-Next == UNCHANGED vars
+        /\ pc = "in" /\ ok = FALSE /\ out = <<>>
+(* Grid(system, NKdiv = n, NKFFT = 1) raises unless the group maps the grid to itself; then get_K_list(use_symmetry) *)
+Call == /\ pc = "in" /\ pc' = "done"
+        /\ ok' = Compatible(n, GroupOf(grp))
+        /\ out' = IF Compatible(n, GroupOf(grp)) THEN IrreducibleList(n, GroupOf(grp), sym) ELSE <<>>
+        /\ UNCHANGED <<grp, n, sym>>
+Next == Call
 Spec == Init /\ [][Next]_vars
 GEff == IF sym THEN GroupOf(grp) ELSE {Id3}
-NonNegative     == ok => WeightsNonNegative(out)
-SumToOne        == ok => WeightsSumToOne(out, n)
-Partition       == ok => StarsPartition(out, n, GEff)
-OrbitWeight     == ok => WeightIsOrbitSize(out, n, GEff)
-ImagesCoverOnce == ok => CoveredOnce(out, n, GEff)
+Good == pc = "done" /\ ok
+NonNegative     == Good => WeightsNonNegative(out)
+SumToOne        == Good => WeightsSumToOne(out, n)
+Partition       == Good => StarsPartition(out, n, GEff)
+OrbitWeight     == Good => WeightIsOrbitSize(out, n, GEff)
+ImagesCoverOnce == Good => CoveredOnce(out, n, GEff)
 =============================================================================
